@@ -109,13 +109,13 @@ refine(P + "EvalCutoffProblem.evaluate", P + "Problem.evaluate",
 # ---- PrecisionCutoffProblem: 1-based index of the first hit, sticky ---------------------------------
 refine(P + "PrecisionCutoffProblem.evaluate", P + "Problem.evaluate",
        ensures=[cl("counts_one", "self._n_evals == old(self._n_evals) + 1", tags="C16"),
-                cl("sticky", "imp(old(self.hit_precision), self.hit_precision and self.ETA == old(self.ETA))", tags="C16 C05"),
+                cl("sticky", "imp(old(self.hit_precision), self.hit_precision and same(self.ETA, old(self.ETA)))", tags="C16 C05"),
                 cl("eta_is_1based_index", "imp(not old(self.hit_precision) and self.hit_precision, "
                    "self.ETA == fl(old(self._n_evals) + 1))", tags="C16"),
                 cl("hit_iff_within", "imp(not old(self.hit_precision) and is_fin(result) and is_fin(self._global_optima) "
                    "and is_fin(self.precision), self.hit_precision == "
                    "(abs(real(result) - real(self._global_optima)) <= real(self.precision)))", tags="C16"),
-                cl("unset_stays", "imp(not self.hit_precision, self.ETA == old(self.ETA))", tags="C16")])
+                cl("unset_stays", "imp(not self.hit_precision, same(self.ETA, old(self.ETA)))", tags="C16")])
 
 # ---- StatsGatheringProblem -----------------------------------------------------------------------
 refine(P + "StatsGatheringProblem.evaluate", P + "Problem.evaluate",
